@@ -8,6 +8,58 @@ use rsbdd::bdd::{BDDEnv, BDD};
 use serde_json::{json, Value};
 use std::rc::Rc;
 
+#[derive(Clone, Copy, Debug, PartialEq, Eq)]
+pub enum Operands {
+    Interned,
+    Plain,
+    OtherEnv,
+}
+
+impl Operands {
+    pub fn name(self) -> &'static str {
+        match self {
+            Operands::Interned => "interned",
+            Operands::Plain => "plain",
+            Operands::OtherEnv => "other-env",
+        }
+    }
+    pub fn from_name(s: &str) -> Operands {
+        match s {
+            "plain" => Operands::Plain,
+            "other-env" => Operands::OtherEnv,
+            _ => Operands::Interned,
+        }
+    }
+}
+
+thread_local! {
+    static MODE: std::cell::Cell<Operands> = const { std::cell::Cell::new(Operands::Interned) };
+}
+
+pub fn operands() -> Operands {
+    MODE.with(|m| m.get())
+}
+
+/// Run a check with operands of the given provenance; a violation's case records the mode.
+pub fn with_operands<F: FnOnce() -> crate::engine::Check>(mode: Operands, f: F) -> crate::engine::Check {
+    let old = operands();
+    MODE.with(|m| m.set(mode));
+    let r = f();
+    MODE.with(|m| m.set(old));
+    r.map_err(|mut v| {
+        if mode != Operands::Interned {
+            v.case["operands"] = serde_json::json!(mode.name());
+            v.message = format!("(operands: {}) {}", mode.name(), v.message);
+        }
+        v
+    })
+}
+
+/// replay helper: the mode recorded in a case
+pub fn case_operands(case: &Value) -> Operands {
+    Operands::from_name(case["operands"].as_str().unwrap_or("interned"))
+}
+
 #[derive(Clone, Debug, PartialEq, Eq, Hash)]
 pub struct Fun {
     pub tt: TT,
@@ -58,8 +110,20 @@ impl Fun {
         self.tt.remap(uni.len(), &map)
     }
 
+    /// The operand handle for a check. Default: created in `env` through mk_choice. Under
+    /// `Operands::Plain` the diagram is made of plain values that belong to no environment
+    /// (what `BDD::<usize>::from(named)` produces and the repository's own parser tests then
+    /// feed to a fresh environment); under `Operands::OtherEnv` it lives in another environment.
     pub fn intern(&self, env: &BDDEnv<usize>) -> Rc<BDD<usize>> {
-        plain::intern(env, &self.tt, &self.ids)
+        match operands() {
+            Operands::Interned => plain::intern(env, &self.tt, &self.ids),
+            Operands::Plain => plain::build(&self.tt, &self.ids),
+            Operands::OtherEnv => {
+                // the nodes keep themselves alive; the foreign environment need not outlive the call
+                let other: BDDEnv<usize> = BDDEnv::new();
+                plain::intern(&other, &self.tt, &self.ids)
+            }
+        }
     }
 
     pub fn plain(&self) -> Rc<BDD<usize>> {
@@ -89,6 +153,15 @@ pub fn universe(funs: &[&Fun], extra: &[usize]) -> Vec<usize> {
 
 /// Decode a function from the tape: up to `max_vars` variables with ids drawn from
 /// `0..id_pool` (distinct), table bits from the tape.
+/// operand provenance from the tape: mostly interned, sometimes foreign
+pub fn gen_operands(t: &mut Tape) -> Operands {
+    match t.choose(5) {
+        0 => Operands::Plain,
+        1 => Operands::OtherEnv,
+        _ => Operands::Interned,
+    }
+}
+
 pub fn gen_fun(t: &mut Tape, max_vars: usize, id_pool: usize) -> Fun {
     let n = t.choose(max_vars + 1);
     let mut ids: Vec<usize> = Vec::new();
